@@ -194,9 +194,10 @@ class Program:
                 m["unit"] = unit
                 self.mir.setdefault(unit, []).append(m)
         # helper normal form: functions that are not on the pinned list are inlined into their callers
-        from .alias import apply_aliases
+        from .alias import apply_aliases, apply_field_groups
         from .inline import inline_program
         apply_aliases(self)
+        apply_field_groups(self)
         inline_program(self)
 
     def fn(self, path, unit=None):
@@ -352,11 +353,29 @@ def normalise_tree(n):
                     "cond": {"k": "letexpr", "ty": "bool", "sp": main["pat"].get("sp", n.get("sp")),
                              "pat": main["pat"], "init": n["e"]},
                     "then": main["body"], "else": other["body"]}
+    # `write!(w, ..)` == `w.write_all(format!(..).as_bytes())` (same bytes to the same sink);
+    # `write!(s, ..)` on a String == `s.push_str(&format!(..))`
+    if k == "mcall" and len(n.get("args", [])) == 1 and norm_path(n.get("callee", "")) in (
+            "std::io::Write::write_fmt", "core::fmt::Write::write_fmt", "std::fmt::Write::write_fmt"):
+        sp = n.get("sp")
+        fmt = {"k": "call", "ty": "std::string::String", "sp": sp, "mac": n.get("mac"), "callee": "alloc::fmt::format",
+               "cdk": "Fn", "f": {"k": "def", "dk": "Fn", "path": "alloc::fmt::format", "sp": sp}, "args": n["args"],
+               "from_write_fmt": True}
+        if norm_path(n["callee"]) == "std::io::Write::write_fmt":
+            asb = {"k": "mcall", "ty": "&[u8]", "sp": sp, "name": "as_bytes", "callee": "std::string::String::as_bytes",
+                   "recv": fmt, "args": []}
+            return dict(n, name="write_all", callee="std::io::Write::write_all", args=[asb], rcallee=None,
+                        from_write_fmt=True)
+        rty = (n["recv"].get("ty") or "").lstrip("&").replace("mut ", "")
+        if rty.endswith("string::String"):
+            return dict(n, name="push_str", callee="std::string::String::push_str", rcallee=None,
+                        args=[{"k": "addr", "ty": "&str", "sp": sp, "e": fmt}], from_write_fmt=True)
     if k == "if" and isinstance(n.get("cond"), dict) and n["cond"].get("k") == "letexpr":
         r = _case_of_case(n)
         if r is not None:
             return r
     if k == "block":
+        _distribute_fn_select(n)
         stmts = n.get("stmts", [])
         for i, st in enumerate(stmts):
             if st.get("k") == "let" and st.get("els") is not None and st.get("init") is not None:
@@ -370,6 +389,101 @@ def normalise_tree(n):
                 break
     return n
 
+
+
+def _fn_leaves(e):
+    """leaf nodes of an if/match/block expression when every leaf is a function item; else None"""
+    if not isinstance(e, dict):
+        return None
+    k = e.get("k")
+    if k == "def" and str(e.get("dk", "")) in ("Fn", "AssocFn"):
+        return [e]
+    if k == "cast":
+        return _fn_leaves(e.get("e"))
+    if k == "block" and not e.get("stmts") and e.get("expr") is not None:
+        return _fn_leaves(e["expr"])
+    if k == "if" and e.get("else") is not None:
+        a, b = _fn_leaves(e["then"]), _fn_leaves(e["else"])
+        return a + b if a and b else None
+    if k == "match":
+        out = []
+        for arm in e.get("arms", []):
+            if arm.get("guard") is not None:
+                return None
+            l = _fn_leaves(arm["body"])
+            if not l:
+                return None
+            out += l
+        return out
+    return None
+
+
+def _distribute_fn_select(blk):
+    """`let run = match p { A => f, B => g }; ... run(args)` (the local is used once, as the callee)
+       == `... match p { A => f(args), B => g(args) }`: the call is made in the arm that selected the function."""
+    import copy
+    stmts = blk.get("stmts", [])
+    for i, st in enumerate(stmts):
+        if st.get("k") != "let" or st.get("pat", {}).get("k") != "pbind" or "Mut)" in st["pat"].get("mode", "") \
+                or st.get("els") is not None:
+            continue
+        leaves = _fn_leaves(st.get("init"))
+        if not leaves or len(leaves) < 2:
+            continue
+        lid = st["pat"]["id"]
+        rest = stmts[i + 1:] + ([blk["expr"]] if blk.get("expr") is not None else [])
+        uses, calls = [], []
+
+        def scan(x):
+            if isinstance(x, list):
+                for y in x:
+                    scan(y)
+            elif isinstance(x, dict):
+                if x.get("k") == "local" and x.get("id") == lid:
+                    uses.append(x)
+                if x.get("k") == "call" and isinstance(x.get("f"), dict) and x["f"].get("k") == "local" and x["f"].get("id") == lid:
+                    calls.append(x)
+                for v in x.values():
+                    if isinstance(v, (dict, list)):
+                        scan(v)
+        scan(rest)
+        if len(uses) != 1 or len(calls) != 1:
+            continue
+        call = calls[0]
+        sel = copy.deepcopy(st["init"])
+
+        def put(e):
+            k = e.get("k")
+            if k == "def":
+                c = {"k": "call", "ty": call.get("ty"), "sp": call.get("sp"), "callee": e.get("path"), "cdk": e.get("dk"),
+                     "f": e, "args": copy.deepcopy(call.get("args", [])), "fn_selected": True}
+                if e.get("rpath"):
+                    c["rcallee"] = e["rpath"]
+                return c
+            if k == "cast":
+                return put(e["e"])
+            if k == "block":
+                e["expr"] = put(e["expr"])
+                e["ty"] = call.get("ty")
+                return e
+            if k == "if":
+                e["then"], e["else"] = put(e["then"]), put(e["else"])
+                e["ty"] = call.get("ty")
+                return e
+            if k == "match":
+                for arm in e["arms"]:
+                    arm["body"] = put(arm["body"])
+                e["ty"] = call.get("ty")
+                return e
+            return e
+        new = put(sel)
+        saved = dict(call)
+        call.clear()
+        call.update(new)
+        call.setdefault("sp", saved.get("sp"))
+        del stmts[i]
+        blk["stmts"] = stmts
+        return _distribute_fn_select(blk)
 
 
 def _ctor_of(e):
